@@ -125,7 +125,7 @@ func c11Judge(what string) func(args, real, drv json.RawMessage) *core.Verdict {
 				return core.Fail("shared-default-instance:"+strings.SplitN(what, " ", 2)[0], "the result shares one mapping/sequence instance between "+r.Shared+": a later in-place change of one overwrites the other")
 			}
 		}
-		// a panic is an outcome the model must predict (site included); it is the business of C01 to
+		// a panic is an outcome the model must predict (site included; Normalize has none left); it is the business of C01 to
 		// call it a defect, here it only has to be the same on both sides
 		if !core.CanonEqual(real, drv) {
 			return core.Disagree(what)
